@@ -221,7 +221,7 @@ GROUPS = [
     Group('FirstLayerState_clear', 'h_clear', enforce='FirstLayerState_clear', min_props=2),
     Group('setPiece_one', 'h_setPiece_one', enforce='NNEvaluator_setPiece_one', min_props=5, timeout=1800,
           cases=('case', [('CASE_AL=%d' % a, 'CASE_SL=%d' % b) for a in range(5) for b in range(5)])),
-    Group('computeL1WB_apply', 'h_l1wb_apply', enforce='NNEvaluator_computeL1WB_apply', replace=('ghost_addSub',), min_props=5, timeout=900),
+    Group('computeL1WB_apply', 'h_l1wb_apply', enforce='NNEvaluator_computeL1WB_apply', replace=('ghost_addSub',), min_props=5, timeout=3600),
     Group('pushState', 'h_pushState', enforce='NNEvaluator_pushState', replace=('NNEvaluator_computeL1WB',), defines=('NN_STACK_BOUND=8',), min_props=5, timeout=1800, bounded='stack of 8 levels instead of maxStackSize = 400 (the functions are uniform in the level: they touch only levels stackTop, stackTop-1 and 0)'),
     Group('popState', 'h_popState', enforce='NNEvaluator_popState', replace=('NNEvaluator_forceFullEval',), defines=('NN_STACK_BOUND=8',), min_props=3, bounded='stack of 8 levels instead of maxStackSize = 400 (the functions are uniform in the level: they touch only levels stackTop, stackTop-1 and 0)'),
     Group('forceFullEval', 'h_forceFullEval', enforce='NNEvaluator_forceFullEval', replace=('FirstLayerState_clear',), defines=('NN_STACK_BOUND=8',), min_props=3, bounded='stack of 8 levels instead of maxStackSize = 400 (the functions are uniform in the level: they touch only levels stackTop, stackTop-1 and 0)'),
